@@ -147,7 +147,7 @@ func boundaryNear(r *rand.Rand, leo uint64) uint64 {
 	}
 }
 
-func genISR(r *rand.Rand) (local uint64, isr []uint64, pr []prog) {
+func genISR(r *rand.Rand) (local uint64, isr []uint64) {
 	local = uint64(1 + r.IntN(3))
 	n := r.IntN(4)
 	for i := 0; i < n; i++ {
@@ -156,7 +156,7 @@ func genISR(r *rand.Rand) (local uint64, isr []uint64, pr []prog) {
 	if vh.Chance(r, 0.7) && len(isr) > 0 && vh.Chance(r, 0.7) {
 		isr[r.IntN(len(isr))] = local
 	}
-	return local, isr, nil
+	return local, isr
 }
 
 func genProg(r *rand.Rand, leo uint64) []prog {
@@ -175,125 +175,183 @@ func genProg(r *rand.Rand, leo uint64) []prog {
 
 func genPure(r *rand.Rand) *pureIn {
 	leo := uint64(r.IntN(12))
-	local, isr, _ := genISR(r)
-	p := &pureIn{Role: uint8(r.IntN(4)), Local: local, ISR: isr, Prog: genProg(r, leo), LEO: leo}
-	p.HW = seqNear(r, leo)
-	p.Ckpt = seqNear(r, leo)
-	if vh.Chance(r, 0.6) { // mostly consistent watermarks
+	local, isr := genISR(r)
+	p := &pureIn{Role: uint8(r.IntN(4)), Local: local, ISR: isr, LEO: leo}
+	if vh.Chance(r, 0.7) { // consistent watermarks, a through that has a chance
 		p.HW = uint64(r.IntN(int(leo) + 1))
+		if vh.Chance(r, 0.5) {
+			p.HW = leo
+		}
 		p.Ckpt = uint64(r.IntN(int(p.HW) + 1))
+		if vh.Chance(r, 0.5) {
+			p.Ckpt = p.HW
+		}
+		p.Through = uint64(r.IntN(int(p.Ckpt) + 2))
+		p.Phys = uint64(r.IntN(int(p.Through) + 1))
+		if vh.Chance(r, 0.7) && p.Through > 0 {
+			p.Phys = uint64(r.IntN(int(p.Through)))
+		}
+		p.Retention = vh.Pick(r, 0, p.Through, p.Through, leo, seqNear(r, leo))
+		p.Prog = genProgAim(r, leo, p.Through)
+	} else {
+		p.HW = seqNear(r, leo)
+		p.Ckpt = seqNear(r, leo)
+		p.Retention = seqNear(r, leo)
+		p.Phys = uint64(r.IntN(int(leo) + 2))
+		p.Through = seqNear(r, leo)
+		p.Prog = genProgAim(r, leo, p.Through)
 	}
-	p.Retention = seqNear(r, leo)
-	p.Phys = uint64(r.IntN(int(leo) + 2))
-	if vh.Chance(r, 0.4) {
-		p.Phys = 0
-	}
-	p.Through = seqNear(r, leo)
 	return p
+}
+
+// genProgAim records progress for some nodes: at LEO, at or just around a target, or anywhere.
+func genProgAim(r *rand.Rand, leo, target uint64) []prog {
+	var pr []prog
+	for node := uint64(1); node <= 4; node++ {
+		if !vh.Chance(r, 0.6) {
+			continue
+		}
+		var m uint64
+		switch r.IntN(6) {
+		case 0:
+			m = seqNear(r, leo)
+		case 1:
+			m = target
+		case 2:
+			if target > 0 {
+				m = target - 1
+			}
+		default:
+			m = leo
+		}
+		pr = append(pr, prog{Node: node, Match: m})
+	}
+	return pr
 }
 
 func gen(r *rand.Rand, tier string, i int) input {
 	if r.IntN(6) == 0 {
 		return input{Pure: genPure(r)}
 	}
-	nops := 8 + r.IntN(28)
+	nops := 10 + r.IntN(30)
 	if tier == "thorough" {
-		nops = 8 + r.IntN(50)
+		nops = 10 + r.IntN(60)
 	}
 	var ops []op
-	var leo, hw, ck uint64 // generator's own estimate, used only to aim values
-	// start with metadata and usually a first append
+	// the generator's own estimate of the state, used only to aim values
+	var leo, hw, ck, local, first uint64
+	first = 1
+	wild := vh.Chance(r, 0.25) // a quarter of the histories use unaimed values throughout
 	{
-		local, isr, _ := genISR(r)
-		role := uint8(1 + r.IntN(2))
-		ops = append(ops, op{K: "meta", Role: role, Local: local, ISR: isr, Prog: genProg(r, 0)})
+		node, isr := genISR(r)
+		ops = append(ops, op{K: "meta", Role: uint8(1 + r.IntN(2)), Local: node, ISR: isr, Prog: genProgAim(r, 0, 0)})
+	}
+	appendOp := func() {
+		n := 1 + r.IntN(5)
+		o := op{K: "append"}
+		for j := 0; j < n; j++ {
+			o.Sizes = append(o.Sizes, vh.Pick(r, 0, 1, 1, 2, 3, 5, 8))
+			o.Sync = append(o.Sync, vh.Chance(r, 0.2))
+		}
+		leo += uint64(n)
+		ops = append(ops, o)
 	}
 	for len(ops) < nops {
-		switch k := r.IntN(20); {
-		case k < 4: // append
-			n := 1 + r.IntN(5)
-			o := op{K: "append"}
-			for j := 0; j < n; j++ {
-				o.Sizes = append(o.Sizes, vh.Pick(r, 0, 1, 1, 2, 3, 5, 8))
-				o.Sync = append(o.Sync, vh.Chance(r, 0.2))
-			}
-			leo += uint64(n)
-			ops = append(ops, o)
+		aim := !wild && vh.Chance(r, 0.8)
+		switch k := r.IntN(24); {
+		case k < 4 || (leo == 0 && k < 12):
+			appendOp()
 		case k < 6: // hw
 			v := smallNear(r, leo)
-			if vh.Chance(r, 0.5) {
+			if vh.Chance(r, 0.6) {
 				v = leo
 			}
-			if vh.Chance(r, 0.1) {
+			if !aim && vh.Chance(r, 0.3) {
 				v = seqNear(r, leo)
 			}
 			hw = v
 			ops = append(ops, op{K: "hw", V: v})
-		case k < 8: // ckpt
+		case k < 9: // ckpt
 			v := smallNear(r, min(hw, leo))
-			if vh.Chance(r, 0.5) {
+			if vh.Chance(r, 0.6) {
 				v = min(hw, leo)
 			}
-			if vh.Chance(r, 0.1) {
+			if !aim && vh.Chance(r, 0.3) {
 				v = seqNear(r, leo)
 			}
 			if v > ck {
 				ck = v
 			}
 			ops = append(ops, op{K: "ckpt", V: v})
-		case k < 9: // meta
-			local, isr, _ := genISR(r)
-			ops = append(ops, op{K: "meta", Role: uint8(1 + r.IntN(2)), Local: local, ISR: isr, Prog: genProg(r, leo)})
-		case k < 12: // apply
+		case k < 10: // meta
+			node, isr := genISR(r)
+			role := uint8(1 + r.IntN(2))
+			ops = append(ops, op{K: "meta", Role: role, Local: node, ISR: isr, Prog: genProgAim(r, leo, min(ck, leo))})
+		case k < 14: // apply
 			t := boundaryNear(r, leo)
-			if vh.Chance(r, 0.5) {
-				t = smallNear(r, min(ck, leo))
+			if aim {
+				top := min(ck, hw, leo)
+				t = local + uint64(r.IntN(int(top-min(top, local))+2))
+				if vh.Chance(r, 0.2) {
+					t = smallNear(r, top) // regressing or repeated boundary
+				}
 			}
-			o := op{K: "apply", Through: t, MaxMsgs: vh.Pick(r, 0, 0, 1, 2, 3, -1), MaxBytes: vh.Pick(r, 0, 0, 0, 1, 3, 6, -1)}
+			o := op{K: "apply", Through: t, MaxMsgs: vh.Pick(r, 0, 0, 0, 1, 2, 3, -1), MaxBytes: vh.Pick(r, 0, 0, 0, 0, 1, 3, 6, -1)}
 			if t > leo {
 				leo = t
+			}
+			if t > local {
+				local = t
 			}
 			ops = append(ops, o)
-		case k < 13: // adopt (direct store)
+		case k < 15: // adopt (direct store)
 			t := boundaryNear(r, leo)
 			if t > leo {
 				leo = t
 			}
+			if t > local {
+				local = t
+			}
 			ops = append(ops, op{K: "adopt", Through: t})
-		case k < 14: // trim (direct store)
-			ops = append(ops, op{K: "trim", Through: seqNear(r, leo), MaxMsgs: vh.Pick(r, 0, 0, 1, 2, -1), MaxBytes: vh.Pick(r, 0, 0, 1, 4, -1)})
-		case k < 18: // read
-			o := op{K: "read", From: seqNear(r, leo), Max: seqNear(r, leo), Min: seqNear(r, leo),
-				Limit: vh.Pick(r, 0, 1, 2, 3, 10, 100, -1), MaxBytes: vh.Pick(r, 0, 0, 1, 4, 9, 1<<30, -1),
-				Reverse: vh.Chance(r, 0.5), Ret: seqNear(r, leo), MinISR: vh.Pick(r, 0, 1, 2, 2, 3)}
-			if vh.Chance(r, 0.5) {
-				o.Min = 0
+		case k < 16: // trim (direct store)
+			t := seqNear(r, leo)
+			if aim {
+				t = smallNear(r, local)
 			}
-			if vh.Chance(r, 0.5) {
-				o.Ret = 0
-			}
-			if vh.Chance(r, 0.3) {
-				o.Max = 0
-			}
-			if vh.Chance(r, 0.15) {
-				o.From = 0
+			ops = append(ops, op{K: "trim", Through: t, MaxMsgs: vh.Pick(r, 0, 0, 1, 2, -1), MaxBytes: vh.Pick(r, 0, 0, 1, 4, -1)})
+		case k < 21: // read
+			o := op{K: "read", Reverse: vh.Chance(r, 0.5)}
+			if aim {
+				o.From = vh.Pick(r, 0, 1, first, smallNear(r, leo), smallNear(r, leo), leo, maxU64)
+				if o.Reverse {
+					o.From = vh.Pick(r, 0, maxU64, leo, smallNear(r, leo), smallNear(r, leo), leo+3)
+				}
+				o.Max = vh.Pick(r, 0, 0, maxU64, smallNear(r, leo), leo, leo+2)
+				o.Min = vh.Pick(r, 0, 0, 0, 1, smallNear(r, leo))
+				o.Ret = vh.Pick(r, 0, 0, 0, local, smallNear(r, leo))
+				o.MinISR = vh.Pick(r, 0, 1, 1, 2, 2, 3)
+				o.Limit = vh.Pick(r, 0, 1, 2, 3, 10, 100, -1)
+				o.MaxBytes = vh.Pick(r, 0, 0, 0, 1, 4, 9, 1<<30, -1)
+			} else {
+				o.From, o.Max, o.Min, o.Ret = seqNear(r, leo), seqNear(r, leo), seqNear(r, leo), seqNear(r, leo)
+				o.MinISR = vh.Pick(r, 0, 1, 2, 2, 3, -1)
+				o.Limit = vh.Pick(r, 0, 1, 2, 3, 10, 100, -1)
+				o.MaxBytes = vh.Pick(r, 0, 0, 1, 4, 9, 1<<30, -1)
 			}
 			ops = append(ops, o)
 		default: // sync
-			o := op{K: "sync", Start: seqNear(r, leo), End: seqNear(r, leo), Min: seqNear(r, leo),
-				Limit: vh.Pick(r, 0, 1, 2, 3, 10, 50, -1), Mode: uint8(r.IntN(2)),
-				Ret: seqNear(r, leo), MinISR: vh.Pick(r, 0, 1, 2, 2, 3)}
-			if vh.Chance(r, 0.4) {
-				o.Start = 0
-			}
-			if vh.Chance(r, 0.5) {
-				o.End = 0
-			}
-			if vh.Chance(r, 0.5) {
-				o.Min = 0
-			}
-			if vh.Chance(r, 0.5) {
-				o.Ret = 0
+			o := op{K: "sync", Mode: uint8(r.IntN(2))}
+			if aim {
+				o.Start = vh.Pick(r, 0, 0, 1, smallNear(r, leo), smallNear(r, leo), leo)
+				o.End = vh.Pick(r, 0, 0, 0, smallNear(r, leo), leo+1)
+				o.Min = vh.Pick(r, 0, 0, 0, 1, smallNear(r, leo))
+				o.Ret = vh.Pick(r, 0, 0, 0, local, smallNear(r, leo))
+				o.MinISR = vh.Pick(r, 0, 1, 1, 2, 2, 3)
+				o.Limit = vh.Pick(r, 0, 1, 2, 3, 10, 50, -1)
+			} else {
+				o.Start, o.End, o.Min, o.Ret = seqNear(r, leo), seqNear(r, leo), seqNear(r, leo), seqNear(r, leo)
+				o.MinISR = vh.Pick(r, 0, 1, 2, 2, 3)
+				o.Limit = vh.Pick(r, 0, 1, 2, 3, 10, 50, -1)
 			}
 			ops = append(ops, o)
 		}
